@@ -36,6 +36,10 @@ const (
 	xfInUnnest // kids[0] [NOT] IN UNNEST ( kids[1] )
 	xfSel      // kids[0] . f
 	xfIndex    // kids[0] [ kids[1] ]   or   kids[0] [ KW ( kids[1] ) ]
+	xfCase     // CASE [kid] (WHEN kid THEN kid)+ [ELSE kid] END; toks: "o" operand, "w" one WHEN clause, "e" ELSE — an atom (level 0)
+	xfIf       // IF ( kids[0] , kids[1] , kids[2] ) — an atom (level 0)
+	xfArray    // [ kids[0] , ... ] — an atom (level 0)
+	xfCast     // CAST ( kids[0] AS <toks> ) — an atom (level 0); toks = the tokens of the type
 )
 
 // xop describes one operator of the language.
@@ -78,6 +82,18 @@ var xops = []xop{
 	{id: "idx", form: xfIndex, level: 1, arity: 2, rep: true},
 	{id: "idx:OFFSET", form: xfIndex, level: 1, toks: []string{"OFFSET"}, arity: 2},
 	{id: "idx:SAFE_ORDINAL", form: xfIndex, level: 1, toks: []string{"SAFE_ORDINAL"}, arity: 2},
+	{id: "case:w", form: xfCase, level: 0, toks: []string{"w"}, arity: 2},
+	{id: "case:ow", form: xfCase, level: 0, toks: []string{"o", "w"}, arity: 3, rep: true},
+	{id: "case:we", form: xfCase, level: 0, toks: []string{"w", "e"}, arity: 3},
+	{id: "case:owwe", form: xfCase, level: 0, toks: []string{"o", "w", "w", "e"}, arity: 6},
+	{id: "if", form: xfIf, level: 0, arity: 3, rep: true},
+	{id: "arr1", form: xfArray, level: 0, arity: 1},
+	{id: "arr2", form: xfArray, level: 0, arity: 2, rep: true},
+	{id: "arr3", form: xfArray, level: 0, arity: 3},
+	{id: "cast:T", form: xfCast, level: 0, toks: []string{"T"}, arity: 1, rep: true},
+	{id: "cast:int64.x", form: xfCast, level: 0, toks: []string{"int64", ".", "x"}, arity: 1},
+	{id: "cast:a.b", form: xfCast, level: 0, toks: []string{"a", ".", "b"}, arity: 1},
+	{id: "cast:`p q`.Date.T", form: xfCast, level: 0, toks: []string{"`p q`", ".", "Date", ".", "T"}, arity: 1},
 }
 
 // xnode is an abstract tree: no parentheses, no folded signs, no merged paths.
@@ -171,6 +187,41 @@ func (n *xnode) toks(full bool) []string {
 			out = append(append(append(out, op.toks[0], "("), kid(1)...), ")")
 		} else {
 			out = append(out, kid(1)...)
+		}
+		out = append(out, "]")
+	case xfCase:
+		out = append(out, "CASE")
+		i := 0
+		for _, part := range op.toks {
+			switch part {
+			case "o":
+				out = append(out, kid(i)...)
+				i++
+			case "w":
+				out = append(append(append(append(out, "WHEN"), kid(i)...), "THEN"), kid(i+1)...)
+				i += 2
+			case "e":
+				out = append(append(out, "ELSE"), kid(i)...)
+				i++
+			}
+		}
+		out = append(out, "END")
+	case xfIf:
+		out = append(out, "IF", "(")
+		out = append(append(out, kid(0)...), ",")
+		out = append(append(out, kid(1)...), ",")
+		out = append(append(out, kid(2)...), ")")
+	case xfCast:
+		out = append(out, "CAST", "(")
+		out = append(append(out, kid(0)...), "AS")
+		out = append(append(out, op.toks...), ")")
+	case xfArray:
+		out = append(out, "[")
+		for i := range n.kids {
+			if i > 0 {
+				out = append(out, ",")
+			}
+			out = append(out, kid(i)...)
 		}
 		out = append(out, "]")
 	}
@@ -376,6 +427,8 @@ var soupVocab = []string{
 	"a", "b", "c", "1", "2", "2.5", "'x'", "b'y'", "@p", "NULL", "TRUE", "FALSE", "(", ")", "(", ")", "[", "]", ",", ".",
 	"+", "-", "~", "*", "/", "||", "<<", ">>", "&", "^", "|", "=", "!=", "<>", "<", "<=", ">", ">=", "LIKE", "NOT", "IN",
 	"BETWEEN", "AND", "OR", "IS", "UNNEST", "OFFSET", "`f`", "ordinal",
+	"CASE", "WHEN", "THEN", "ELSE", "END", "IF", "WHEN", "THEN", "END",
+	"CAST", "AS", "INT64", "CAST", "AS", "T",
 }
 
 var exprCases = []string{
@@ -400,6 +453,38 @@ var exprCases = []string{
 	"f(x)", "a.f(x)", "COUNT(*)", "CASE WHEN a THEN b END", "IF(a, b, c)", "CAST(a AS INT64)", "[1, 2]", "ARRAY[1]", "(SELECT 1)", "((SELECT 1))",
 	"a IN (SELECT 1)", "EXISTS(SELECT 1)", "DATE '2020-01-01'", "date + 1", "DATE", "`DATE` 'x'", "safe_cast + 1", "a.safe_cast", "NEW T()", "{a: 1}",
 	"INTERVAL 1 DAY", "a ? b", "a ; b", "a => b", "$x", "\"unterminated", "a + 'x", "a IN UNNEST b", "UNNEST(a)", "a UNNEST", "OFFSET", "offset(1)",
+	"CASE a WHEN 1 THEN -x ELSE b END + 1", "CASE WHEN a THEN b WHEN c THEN d ELSE e END", "CASE END", "CASE WHEN END", "CASE WHEN a END",
+	"CASE WHEN a THEN END", "CASE WHEN a THEN b", "CASE WHEN a THEN b ELSE END", "CASE WHEN a THEN b ELSE c", "CASE a END", "CASE a ELSE b END",
+	"CASE WHEN a THEN b ELSE c ELSE d END", "CASE WHEN a THEN b END END", "CASE CASE WHEN a THEN b END WHEN c THEN d END",
+	"CASE WHEN CASE WHEN a THEN b END THEN c END", "CASE WHEN a THEN b END . f", "CASE WHEN a THEN b END [ 1 ]", "CASE WHEN a THEN b END IS NULL",
+	"- CASE WHEN a THEN 1 END", "NOT CASE WHEN a THEN b END", "a + CASE WHEN a THEN b END * c", "CASE WHEN a OR b THEN c AND d ELSE NOT e END",
+	"CASE a = b WHEN c THEN d END", "CASE WHEN a THEN b, c END", "case when a then b else c end", "CASE WHEN a THEN b WHEN END", "WHEN", "THEN a",
+	"a ELSE b", "END", "a END", "CASE (a) WHEN (b) THEN (c) ELSE (d) END", "(CASE WHEN a THEN b END)", "x IN (CASE WHEN a THEN b END, 2)",
+	"x IN UNNEST(CASE WHEN a THEN b END)", "a BETWEEN CASE WHEN a THEN b END AND IF(a,b,c)", "a[CASE WHEN a THEN 1 END]", "a[OFFSET(IF(a, 1, 2))]",
+	"CASE a WHEN b THEN c WHEN d THEN e WHEN f THEN g END", "CASE - 1 WHEN - 1 THEN - 1 ELSE - 1 END", "CASE a.b WHEN c.d THEN e.f ELSE g.h END",
+	"CASE WHEN a THEN b ELSE c END.f[1]", "CASE WHEN a THEN b /* c */ END", "CASE\nWHEN a\nTHEN b\nEND", "CASE WHEN a THEN b ELSE CASE WHEN c THEN d END END",
+	"CASE a WHEN offset THEN b END", "a[CASE offset WHEN 1 THEN 2 END]", "CASE WHEN a THEN b END = CASE WHEN c THEN d END", "CASE WHEN a IS NULL THEN b END",
+	"CASE WHEN a THEN b END WHEN", "CASE WHEN WHEN a THEN b END", "CASE THEN a END", "CASE ELSE a END", "CASE a WHEN b ELSE c END",
+	"IF(a, b)", "IF(a, b, c, d)", "IF (a, b, c)", "IF(a b, c)", "IF a", "IF", "IF()", "IF(,,)", "IF(a, b, c", "IF(a, b, c).f", "IF(a, b, c)[0]",
+	"IF(a, b, c) + 1", "- IF(a, 1, 2)", "IF(IF(a, b, c), IF(d, e, f), g)", "IF((a, b), c, d)", "IF(a, (b, c), d)", "if(a, b, c)", "`IF`(a, b, c)",
+	"`if`", "a.IF", "a.case", "a.end", "IF(a IN (1, 2), b, c)", "IF(a, b, c) IN (IF(a, b, c))", "x[IF(a, b, c)]", "CASE IF(a, b, c) WHEN 1 THEN 2 END",
+	"IF(CASE WHEN a THEN b END, c, d)", "IF(a, b, CASE WHEN a THEN b END)", "IF(a,b,c) IF(a,b,c)", "CASE WHEN a THEN b END CASE WHEN a THEN b END",
+	"f(CASE WHEN a THEN b END)", "IF(f(a), b, c)", "IF(a, b, c)(1)", "IF(a OR b, c AND d, NOT e)", "IF(a, b, c) IS NOT NULL", "NOT IF(a, b, c)",
+	"IF(a, b, c) BETWEEN IF(a, b, c) AND IF(a, b, c)", "IF(-1, +2, ~3)", "IF(a, b,)", "IF(a,, c)", "IF(a; b; c)", "IF[a, b, c]", "(IF)(a, b, c)",
+	"[]", "[ ]", "[1]", "[1, 2, 3]", "[a, 'x', NULL]", "[[1], [2, 3], []]", "[1,]", "[,1]", "[1 2]", "[1", "[", "]", "[1, 2", "[1, 2)", "[1][0]",
+	"[1, 2][OFFSET(0)]", "[a].f", "[a] . f", "- [1]", "NOT [a]", "[a] + [b]", "[a] || [b, c]", "a IN ([1], [2])", "a IN UNNEST([1, 2, 3])",
+	"a[[1][0]]", "a [ [ 1 ] ]", "[a[1]]", "[a][b][c]", "[a OR b, NOT c, d = e]", "[(a, b)]", "[(a), (b)]", "[IF(a, b, c), CASE WHEN a THEN [b] END]",
+	"CASE [1] WHEN [2] THEN [3] ELSE [4] END", "IF([a], [b], [c])", "[a] IS NULL", "[a] BETWEEN [b] AND [c]", "[1]. f", "[-1, - 1, +.5]",
+	"a + [", "[ a + ]", "[a] [", "ARRAY[1]", "ARRAY<INT64>[1]", "[1] [2] [3]", "a.b[1]", "a . [1]", "a = [1]", "[f(1)]", "[DATE '2020-01-01']", "[a, b].c.d[0]",
+	"CAST(a AS INT64)", "CAST(a AS int64)", "cast(a as Int64)", "CAST(a AS `INT64`)", "CAST(a AS STRING)", "CAST(a AS date)", "CAST(a AS TOKENLIST)",
+	"CAST(a AS b)", "CAST(a AS b.c)", "CAST(a AS `b c`.d)", "CAST(a AS date.T)", "CAST(a AS int64.x.y)", "CAST(a AS `INT64`.x)", "CAST(a AS b.`INT64`)",
+	"CAST(a AS ARRAY<INT64>)", "CAST(a AS STRUCT<x INT64>)", "CAST(a AS ARRAY<ARRAY<INT64>>)", "CAST(a AS)", "CAST(a AS 1)", "CAST(a AS INT64", "CAST(a INT64)",
+	"CAST a AS INT64", "CAST(a, INT64)", "CAST(AS INT64)", "CAST()", "CAST", "CAST(a AS INT64 STRING)", "CAST(a AS b.)", "CAST(a AS .b)", "CAST(a AS b..c)",
+	"CAST(a AS b.1)", "CAST(a AS b.select)", "CAST(a AS safe_cast)", "CAST(a AS offset(1))", "CAST(a AS DATE 'x')", "CAST(CAST(a AS INT64) AS STRING)",
+	"CAST(a + b AS INT64) * 2", "- CAST(a AS INT64)", "CAST(a AS INT64).f", "CAST(a AS INT64)[0]", "CAST(a AS INT64) IS NULL", "CAST(a OR b AS BOOL)",
+	"CAST(a AS b) AS c", "a AS b", "AS", "CAST([1, 2] AS x.y)", "[CAST(a AS INT64), CAST(b AS t)]", "IF(CAST(a AS BOOL), CAST(b AS INT64), c)",
+	"CASE CAST(a AS INT64) WHEN 1 THEN CAST(b AS STRING) END", "CAST(a AS INT64) BETWEEN CAST(b AS INT64) AND CAST(c AS INT64)", "x IN (CAST(a AS INT64))",
+	"SAFE_CAST(a AS INT64)", "safe_cast(a AS INT64)", "`CAST`(a AS INT64)", "CAST(a AS /* c */ INT64)", "CAST(a AS\nb . c)", "CAST(a AS b) . c", "CAST(a AS (b))",
 	"x[offset](1)", "a . * b", "a + b . *", "a.", ".a", "a..b", "a [ 1 ] . f", "a . f [ 1 ]", "- a . f", "( - 1 ) . f", "-1 .f",
 }
 
